@@ -111,7 +111,13 @@ QJsonObject generate()
                 o["o"] = "big";
                 o["cls"] = pick(0, 3);
                 static const int lens[] = { 8191, 8192, 8193, 65535, 65536, 65537, 20000, 131073, 262145 };
-                o["len"] = lens[pick(0, std::string(envOr("VERIF_TIER", "quick")) == "thorough" ? 8 : 7)] + pick(-1, 1);
+                // "several MiB": beyond 1 MiB (a block size a streaming rewrite would plausibly pick), 3 MiB, 4 MiB + 1
+                static const int huge[] = { 1048577, 1048576 + 65536, 3 * 1048576 + 17, 4 * 1048576 + 1 };
+                const bool thorough = std::string(envOr("VERIF_TIER", "quick")) == "thorough";
+                if (chance(thorough ? 20 : 7))
+                    o["len"] = huge[pick(0, thorough ? 3 : 1)];
+                else
+                    o["len"] = lens[pick(0, 8)] + pick(-1, 1);
                 o["seed"] = pick(1, 1000000);
             } else {
                 int len, r = pick(0, 9);
@@ -169,6 +175,34 @@ QString expandBig(int cls, int len, int seed)
     return s;
 }
 
+// ------------------------------------------------------------------------------ C08: order of "compressed complete" and "original removed"
+// Called by the shim right before any unlink() executes. When the file about to disappear is a rotated plain file of the sink under
+// test and a compressed sibling exists, that sibling must ALREADY be a complete gzip member of exactly the same bytes ("the
+// uncompressed file disappears only once the compressed one is complete").
+std::string g_unlinkViolation;
+const rotmodel::NameScheme *g_hookScheme = nullptr;
+long g_unlinkChecked = 0;
+void onUnlink(const char *path)
+{
+    if (!g_hookScheme || !path || !g_unlinkViolation.empty()) return;
+    std::string p(path);
+    size_t slash = p.rfind('/');
+    std::string name = slash == std::string::npos ? p : p.substr(slash + 1);
+    std::string date;
+    long long idx;
+    bool gz;
+    if (!g_hookScheme->parse(name, &date, &idx, &gz) || gz) return;
+    std::string rawGz, plain;
+    if (!rotmodel::readWhole(p + ".gz", rawGz)) return; // no compressed sibling: retention removing a plain file
+    if (!rotmodel::readWhole(p, plain)) return;
+    g_unlinkChecked++;
+    std::string inflated, err;
+    if (!rotmodel::gunzipStrict(rawGz, inflated, err))
+        g_unlinkViolation = "'" + name + "' is being removed while '" + name + ".gz' (" + std::to_string(rawGz.size()) + " bytes on disk) is not yet a complete gzip stream: " + err;
+    else if (inflated != plain)
+        g_unlinkViolation = "'" + name + "' is being removed while '" + name + ".gz' does not hold its content";
+}
+
 // ------------------------------------------------------------------------------ the model
 struct Rec
 {
@@ -200,6 +234,7 @@ struct World
     // statistics
     int rotations = 0, removals = 0, restarts = 0, dayChangesWithData = 0, ambiguous = 0, gzFiles = 0, maxIndex = 0;
     bool boundaryHit = false, multiByte = false, tieRotations = false, restartAfterDayChange = false, removalBeforeLaterRotationSameDate = false;
+    bool sawCompressedBig1M = false;
     bool sawCompressedBig8k = false, sawCompressedBig64k = false, incompressible = false, emptyLines = false, overLimitRecord = false;
     std::string lastWriteDay;
     long long lastRotationStamp = -1;
@@ -453,6 +488,7 @@ bool check(World &w, std::vector<FileSnap> &files, bool afterWrite, Violation &v
             w.gzFiles++;
             if (f->content.size() > 8192) w.sawCompressedBig8k = true;
             if (f->content.size() > 65536) w.sawCompressedBig64k = true;
+            if (f->content.size() > 1048576) w.sawCompressedBig1M = true;
         }
     }
     w.prevRanges = cur;
@@ -513,6 +549,9 @@ std::string run(const QJsonObject &c)
     if (w.compress) opt |= RotatingFileSink::Compression;
     const QString path = QString::fromStdString(dir + "/" + w.fileName);
     auto mk = [&] { return new RotatingFileSink(path, w.L, w.N, opt); };
+    g_unlinkViolation.clear();
+    g_hookScheme = &w.scheme;
+    verif_shim_on_unlink(onUnlink);
     RotatingFileSink *sink = mk();
     QMessageLogContext ctx("f.cpp", 1, "f", "c");
 
@@ -576,13 +615,17 @@ std::string run(const QJsonObject &c)
             if (pendingUnflushed) observed = false;
         } else {
             delete sink;
+            verif_shim_on_unlink(nullptr);
+            g_hookScheme = nullptr;
             return "bad op in case file";
         }
         if (observed) {
             const int rotBefore = w.rotations;
             std::vector<FileSnap> files = snapshot(w);
             stamp(w, files, opMs);
-            if (!check(w, files, wasWrite, viol)) {
+            bool okNow = check(w, files, wasWrite, viol);
+            if (okNow && !g_unlinkViolation.empty()) { viol = { "C08", g_unlinkViolation }; okNow = false; }
+            if (!okNow) {
                 failed = true;
                 bool mine = false;
                 for (const char *t : { "C05", "C06", "C07", "C08", "C09" })
@@ -602,6 +645,8 @@ std::string run(const QJsonObject &c)
         verif_clock_set(now);
     }
     delete sink;
+    verif_shim_on_unlink(nullptr);
+    g_hookScheme = nullptr;
     verif_clock_enable(false);
     QDir(QString::fromStdString(dir)).removeRecursively();
 
@@ -631,6 +676,8 @@ std::string run(const QJsonObject &c)
     cls("ambiguous_range_resolution", w.ambiguous > 0);
     count("rotations", w.rotations);
     count("gz_files_validated", w.gzFiles);
+    count("unlink_of_original_checked_against_complete_gz", g_unlinkChecked); g_unlinkChecked = 0;
+    cls("gz_content>1MiB", w.sawCompressedBig1M);
     bool nt = false;
     if (g_prop == "C05" || g_prop == "ALL") nt = w.rotations >= 2 && (w.restarts > 0 || (w.compress && w.gzFiles > 0));
     if (g_prop == "C06") nt = w.N >= 2 ? (w.rotations >= w.N + 2 && w.removals > 0) : (w.rotations >= 2);
